@@ -95,6 +95,32 @@ def run(ctx, rep):
             rep.ob("C05.zero-divisor", "%s by a zero %s fails with an error" % (sym, r.lower()), "violated" if bad else "ok",
                    "; ".join(bad)[:400], None, fn="bytecode::variables::ops::%s" % opn.lower(), key="C05.zero-divisor|%s|%s" % (sym, r.lower()))
 
+    # ---- (b') the extreme of each signed kind against -1 ------------------------------------------------------------------
+    # MIN % -1 is 0 (representable: must be the result); MIN / -1 is not representable (must stop, by error or - known finding of C17 - panic).
+    # Decided by evaluating the operator implementation on these two concrete operands (std's Div / Rem on known integers are modelled with
+    # Rust's semantics, including the overflow panic).
+    mins = {"Int": Int(-2**31, "i32"), "BigInt": Int(-2**127, "i128")}
+    neg1 = {"Int": Int(-1, "i32"), "BigInt": Int(-1, "i128")}
+    n_ext = 0
+    for l in ("Int", "BigInt"):
+        for r in ("Int", "BigInt"):
+            if l == "Int" and r == "BigInt":
+                continue        # the int operand is widened first: no extreme there
+            for sym, opn in (("%", "Rem"), ("/", "Div")):
+                rt = T.runtime(opn, l, r, lpayload=mins[l], rpayload=neg1[r])
+                n_ext += 1
+                tags = sorted({x[0] for x in rt})
+                if sym == "%":
+                    ok = tags == ["Ok"]
+                    why = "" if ok else "the exact result 0 is representable but the implementation ends in %s" % sorted(str(x[:2]) for x in rt)
+                else:
+                    ok = "Ok" not in tags and bool(tags)
+                    why = "" if ok else "the exact result is not representable but a value is produced: %s" % sorted(str(x[:2]) for x in rt)
+                rep.ob("C05.extremes", "%s::MIN %s -1 (%s) %s" % (l.lower(), sym, r.lower(), "is 0" if sym == "%" else "stops with a failure"),
+                       "ok" if ok else "violated", why, None, fn="bytecode::variables::ops::%s" % opn.lower(),
+                       key="C05.extremes|%s|%s,%s" % (sym, l.lower(), r.lower()))
+    rep.floor("C05.extremes evaluations", n_ext, 6)
+
     # ---- (c) -------------------------------------------------------------------------------------------
     ofns = operator_fns(F)
     rep.floor("C05.operator impl functions", len(ofns), 20)
@@ -138,6 +164,10 @@ def run(ctx, rep):
                 rep.ob("C05.no-wrap", "profile `%s` builds the interpreter with overflow checks" % name, "ok" if val else "violated",
                        "%d plain integer +,-,*,neg sites in the operator impls wrap silently when overflow-checks is off "
                        "(e.g. 2147483647 + 1 == -2147483648)" % arith_sites, "Cargo.toml", fn="Cargo.toml", key="C05.no-wrap|profile|%s" % name)
+
+    # ---- left shifts are exact ------------------------------------------------------------------------------
+    from props import _shifts
+    _shifts.run(F, rep, "C05.exact-shift", "bytecode", "interpreter")
 
     # ---- operand order -----------------------------------------------------------------------------------
     from props import _operands
